@@ -82,11 +82,11 @@ Section StepFrame.
         apply andb_true_iff in Eg as [Em _].
         match type of H with context[cassoc ?c ?t] => destruct (cassoc c t) end.
         * match type of H with context[get_var ?t ?c ?q ?m] => destruct (get_var t c q m) as [[old|vs]|] end; try discriminate.
-          destruct (vop Z.add v old); [|discriminate]. inv H. now apply frame_put.
+          destruct (vop add64 v old); [|discriminate]. inv H. now apply frame_put.
         * inv H. now apply frame_put.
       + destruct (cassoc (e_perturb ev) (s_vars s)).
         * destruct (get_var (s_vars s) (e_perturb ev) p nm) as [[old|vs]|]; try discriminate.
-          destruct (vop Z.add v old); [|discriminate]. inv H. apply frame_refl.
+          destruct (vop add64 v old); [|discriminate]. inv H. apply frame_refl.
         * inv H. apply frame_refl.
     - (* SRng *)
       destruct (make_rng ev p stream s) as [s1|] eqn:Er; [|discriminate]. inv H. apply frame_same_vars. eapply make_rng_vars; eauto.
@@ -258,11 +258,11 @@ Section StepKeys.
       + destruct (name_reserved (f_resv fr) nm (Some (e_perturb ev))); [discriminate|].
         match type of H with context[cassoc ?c ?t] => destruct (cassoc c t) end.
         * match type of H with context[get_var ?t ?c ?q ?m] => destruct (get_var t c q m) as [[old|vs]|] end; try discriminate.
-          destruct (vop Z.add v old); [|discriminate]. inv H. exact I.
+          destruct (vop add64 v old); [|discriminate]. inv H. exact I.
         * inv H. exact I.
       + destruct (cassoc (e_perturb ev) (s_vars s)).
         * destruct (get_var (s_vars s) (e_perturb ev) p nm) as [[old|vs]|]; try discriminate.
-          destruct (vop Z.add v old); [|discriminate]. inv H. exact I.
+          destruct (vop add64 v old); [|discriminate]. inv H. exact I.
         * inv H. exact I.
     - destruct (make_rng ev p stream s) as [s1|] eqn:Er; [|discriminate]. inv H. eapply make_rng_inv; eauto.
     - destruct (eval (f_locals fr) input e); [|discriminate]. inv H. exact I.
